@@ -40,6 +40,7 @@ type c15Case struct {
 	ViaLoader bool    `json:"viaLoader,omitempty"` // the fan entry goes through a configuration file and fan2go's loader
 	MinMax   bool     `json:"minMax"`  // configured minPwm + maxPwm
 	HasRpm   bool     `json:"hasRpm"`
+	OneTool  bool     `json:"oneTool,omitempty"` // cmd fans: set, get and rpm are one executable with sub-commands (nvidia-settings, liquidctl)
 	Levels   int      `json:"levels"`
 	Ops      []string `json:"ops"` // start | reset | init
 }
@@ -82,6 +83,14 @@ func (w *c15World) fanConfig() configuration.FanConfig {
 		}
 		if w.c.HasRpm {
 			cfg.Cmd.GetRpm = &configuration.ExecConfig{Exec: filepath.Join(w.dir, "rpm.sh")}
+		}
+		if w.c.OneTool {
+			tool := filepath.Join(w.dir, "tool.sh")
+			cfg.Cmd.SetPwm = &configuration.ExecConfig{Exec: tool, Args: []string{"set", "%pwm%"}}
+			cfg.Cmd.GetPwm = &configuration.ExecConfig{Exec: tool, Args: []string{"get"}}
+			if w.c.HasRpm {
+				cfg.Cmd.GetRpm = &configuration.ExecConfig{Exec: tool, Args: []string{"rpm"}}
+			}
 		}
 	}
 	return cfg
@@ -247,6 +256,7 @@ func runC15(ctx *Ctx, c *c15Case) {
 		cmdScript(filepath.Join(dir, "set.sh"), "echo \"$1\" > "+dir+"/pwm; echo \"set $1\" >> "+dir+"/calls")
 		cmdScript(filepath.Join(dir, "get.sh"), "echo get >> "+dir+"/calls; cat "+dir+"/pwm")
 		cmdScript(filepath.Join(dir, "rpm.sh"), "echo rpm >> "+dir+"/calls; echo 1400")
+		cmdScript(filepath.Join(dir, "tool.sh"), "sub=$1; shift; case \"$sub\" in set) exec "+dir+"/set.sh \"$@\";; get) exec "+dir+"/get.sh;; rpm) exec "+dir+"/rpm.sh;; esac; exit 64")
 	} else {
 		for _, p := range []string{w.pwm, w.en, w.rpm} {
 			_ = os.WriteFile(p, []byte("0"), 0644)
@@ -340,6 +350,7 @@ func runC15(ctx *Ctx, c *c15Case) {
 
 func genC15(r *rand.Rand, kind string) *c15Case {
 	c := &c15Case{FanKind: kind, PwmMap: r.Intn(3) == 0, MinMax: r.Intn(3) == 0, HasRpm: r.Intn(4) > 0, Levels: pick(r, 0, 4, 6), ViaLoader: r.Intn(2) == 0}
+	c.OneTool = kind == "cmd" && r.Intn(2) == 0
 	if kind == "hwmon" {
 		c.HasRpm = true
 		if c.Levels == 0 && !c.PwmMap {
